@@ -629,9 +629,9 @@ fn process_case(i: usize) -> CaseResult {
             // finish parsing in 10 s (time doubles per nesting level: 0.2 s at depth 14)
             return CaseResult::Fail(Failure { msg: format!("{}: parsing did not terminate within 10 s", what), sig: "c08:hang:nested-filters".into(), case });
         }
-        // the process computed for (nearly) the whole 90 s on an input of a few hundred bytes: a hang
+        // the process computed for 30 s or more of CPU time on an input of a few hundred bytes: a hang
         // of its own, whatever the load of the machine (CPU time, not wall time, decides)
-        if p.cpu_s >= 60.0 {
+        if p.cpu_s >= 30.0 {
             return CaseResult::Fail(Failure { msg: format!("{}: the process was still computing after {:.0} CPU seconds (killed at 90 s)", what, p.cpu_s), sig: format!("c08:hang:{}", what), case });
         }
         // a watchdog hit without that much CPU time (waiting, starved) is inconclusive, never a violation
